@@ -25,9 +25,11 @@ def _avail_exprs(R_, dev_cls, self_name):
     for name, m in dev_cls.methods.items():
         if m.is_property:
             body = [s for s in m.node.body if not (isinstance(s, ast.Expr) and isinstance(s.value, ast.Constant))]
-            if len(body) == 1 and isinstance(body[0], ast.Return) and isinstance(body[0].value, ast.Attribute) \
-                    and isinstance(body[0].value.value, ast.Name) and body[0].value.value.id == m.params[0] and name == "available":
-                flag = body[0].value.attr
+            v = body[0].value if len(body) == 1 and isinstance(body[0], ast.Return) else None
+            if isinstance(v, ast.Call) and isinstance(v.func, ast.Name) and v.func.id == "bool" and len(v.args) == 1 and not v.keywords:
+                v = v.args[0]              # `return bool(self._flag)`: the property is true exactly when the flag is truthy
+            if isinstance(v, ast.Attribute) and isinstance(v.value, ast.Name) and v.value.id == m.params[0] and name == "available":
+                flag = v.attr
                 out.append(name)
     return flag, out
 
